@@ -111,7 +111,7 @@ def rand_char(rng, where):
             return rng.choice('abcdefghijklmnopqrstuvwxyzABCXYZ0123456789')
         if k < 0.35:
             return ' '
-        if k < 0.5:
+        if k < 0.45:
             return rng.choice('"\'\\')
         if k < 0.6:
             return rng.choice(ASCII_PUNCT)
@@ -295,7 +295,10 @@ class Gen:
             src = 'url(%s)' % u
         if not src.isascii() or '\\' in src:
             self.interesting = True
-        self.atoms.append({'kind': 'url|unquoted:' + feat, 'alone': carrier % src})
+        group = ('escape' if feat.startswith('escaped') else
+                 'value-punctuation' if feat in ('comma', 'data', 'query-and-fragment', 'brackets', 'exclamation') else 'simple')
+        self.atoms.append({'kind': 'url|unquoted:' + group, 'alone': carrier % src, 'feature': feat,
+                           'must_contain': 'url(%s)' % u.strip()})
         return src
 
     URLS = [('plain', 'x.png'), ('query-and-fragment', '/a/b.png?x=1;y=2#frag'), ('scheme', 'http://h.example/a.png'),
@@ -375,7 +378,9 @@ class Gen:
     def decl(self):
         r = self.rng
         if r.random() < 0.06:
+            self.no_hyphen = True       # `--x` would be a custom property, which is outside the subset
             name = self.ident('a { %s: v }', 'property-name', plain=0.3)
+            self.no_hyphen = False
         else:
             name = r.choice(self.PROPS)
         return '%s: %s;' % (name, self.value())
@@ -463,8 +468,8 @@ class Gen:
         src = '/*%s%s*/' % (r.choice(['', ' ', '! ']), text)
         lines = 'multi-line' if '\n' in text or '\r' in text or '\f' in text else 'one-line'
         self.atoms.append({'kind': 'comment|%s|at-top-level' % lines, 'alone': src})
-        self.atoms.append({'kind': 'comment|%s|in-rule' % lines, 'alone': 'a {\n  %s\n  p: v;\n}' % src})
-        self.atoms.append({'kind': 'comment|%s|in-rule-in-at-rule' % lines, 'alone': '@media print {\n  a {\n    %s\n    p: v;\n  }\n}' % src})
+        self.atoms.append({'kind': 'comment|%s|inside-a-block' % lines, 'alone': 'a {\n  %s\n  p: v;\n}' % src})
+        self.atoms.append({'kind': 'comment|%s|inside-a-block' % lines, 'alone': '@media print {\n  a {\n    %s\n    p: v;\n  }\n}' % src})
         return src
 
     def rule(self, ind):
@@ -487,7 +492,7 @@ class Gen:
         k = r.random()
         if self.outer and 0.65 <= k < 0.85 and depth < 2:
             inner = 'media' if k < 0.77 else 'supports'
-            kind = 'nested-at-rule|%s-in-%s' % (inner, self.outer[-1])
+            kind = 'nested-at-rule|inside-%s' % self.outer[-1]
             wrap = {'media': '@media print { %s }', 'supports': '@supports (a: b) { %s }'}
             self.atoms.append({'kind': kind, 'alone': wrap[self.outer[-1]] % (wrap[inner] % 'a { p: v }')})
         if k < 0.55 or depth >= 2:
@@ -624,10 +629,26 @@ def minimize(ctx, atom, first):
     return with_chars(atom, idx), [atom['chars'][i] for i in idx], res
 
 
+def cached_round_trip(ctx, srcs):
+    cache = ctx.__dict__.setdefault('_c09_cache', {})
+    todo = [s for s in dict.fromkeys(srcs) if s not in cache]
+    if todo:
+        if len(cache) > 20000:
+            cache.clear()
+        for s, r in zip(todo, round_trip(ctx, todo)):
+            cache[s] = r
+    return [cache[s] for s in srcs]
+
+
 def isolate(ctx, case, observed, detail):
     """The whole stylesheet failed: find the smallest parts that fail on their own."""
     atoms = case['atoms']
-    res = round_trip(ctx, [a['alone'] for a in atoms])
+    res = cached_round_trip(ctx, [a['alone'] for a in atoms])
+    for i, a in enumerate(atoms):
+        # Sass passes an unquoted url() through as written; if the first compile did not, the case is not about reading back
+        if res[i][0] == 'bad' and 'must_contain' in a and a['must_contain'] not in res[i][2].get('out1', ''):
+            ctx.stat('first_output_changed_the_url')
+            res[i] = ('skip', 'first_output_changed_the_url')
     failing = [(a, r) for a, r in zip(atoms, res) if r[0] == 'bad']
     if not failing:
         kinds = sorted(set(a['kind'] for a in atoms))
@@ -646,8 +667,10 @@ def isolate(ctx, case, observed, detail):
             k = sclass(c)
             if not seq or seq[-1] != k:
                 seq.append(k)
+        if 'string' in a['kind']:
+            seq = sorted(set(seq))  # inside quotes the order of the characters does not matter
         part = '%s|chars=%s' % (a['kind'], ','.join(seq))
-        if x[1] == 'differs-only-in-whitespace':
+        if x[1] == 'differs-only-in-whitespace' and a['kind'] == 'keyframes-name':
             part = a['kind']        # the characters only matter through the escape that writes them
         ctx.violation('%s|observed=%s' % (part, x[1]), {'src': src, 'part': part}, x[2])
 
